@@ -8,7 +8,7 @@ EXTENDS Integers, Sequences, FiniteSets, TLC
 CONSTANTS MaxLen, FitKeepsFirst
 None == -1
 \* data sets: <<min birth, max death>> of the selected degree
-Data == {<<0, 4>>, <<2, 10>>, <<1, 6>>}
+Data == {<<0, 4>>, <<2, 10>>, <<1, 6>>, <<14, 20>>}        \* (the last one lies entirely above the others)
 Fixed == {None, 3}
 VARIABLES ustart, ustop,      \* what the user fixed in the constructor (None = not fixed)
           start, stop,        \* the estimator's public attributes
